@@ -209,6 +209,26 @@ class Interval:
 
 def refine(iv, test, var, truth, cev):
     """refine interval of `var` knowing `test` evaluated to `truth`; returns new interval (or same)"""
+    if isinstance(test, ast.UnaryOp) and isinstance(test.op, ast.Not):
+        return refine(iv, test.operand, var, not truth, cev)
+    if isinstance(test, ast.BoolOp):
+        conj = isinstance(test.op, ast.And) == bool(truth)      # `a and b` true / `a or b` false: every operand decided
+        if conj:
+            out = iv.copy()
+            for v in test.values:
+                out = refine(out, v, var, truth, cev)
+            return out
+        # `a or b` true / `a and b` false: at least one operand - the hull of the alternatives
+        parts = [refine(iv, v, var, truth, cev) for v in test.values]
+        parts = [p_ for p_ in parts if not p_.empty()]
+        if not parts:
+            return Interval(1, 0)
+        return Interval(min(p_.lo for p_ in parts), max(p_.hi for p_ in parts))
+    if isinstance(test, ast.Compare) and len(test.ops) == 2 and all(isinstance(o, (ast.Lt, ast.LtE, ast.Gt, ast.GtE)) for o in test.ops):
+        # a <= x <= b  ==  (a <= x) and (x <= b)
+        both = ast.BoolOp(op=ast.And(), values=[ast.Compare(left=test.left, ops=[test.ops[0]], comparators=[test.comparators[0]]),
+                                                ast.Compare(left=test.comparators[0], ops=[test.ops[1]], comparators=[test.comparators[1]])])
+        return refine(iv, both, var, truth, cev)
     cn = linear.cmp_normal(test, cev)
     if cn is None:
         return iv
@@ -332,6 +352,43 @@ def rule_class(ctx, widths):
 
 
 # ------------------------------------------------------------------ C01.tags
+LATIN1 = {"latin-1", "latin1", "latin_1", "iso-8859-1", "iso8859-1", "iso_8859_1", "l1", "cp819", "8859"}
+
+
+def chars_source(v, string_results, depth=0):
+    """X when the abstract string value is one character per element of X with chr (code point = byte value)"""
+    if not isinstance(v, tuple) or depth > 3:
+        return None
+    if v[0] == "fn" and v[1] == "join" and len(v[2]) == 2 and v[2][0] == ("c", ""):
+        m = v[2][1]
+        if isinstance(m, tuple) and m[0] == "fn" and m[1] == "map" and len(m[2]) == 2 and m[2][0] == ("ext", "chr", []):
+            return m[2][1]
+        return None
+    if v[0] == "fn" and v[1] == "readString()" and v[2] and v[2][0][0] == "c" and string_results is not None:
+        outs = string_results(v[2][0][1])
+        srcs = [chars_source(o, string_results, depth + 1) for o in outs]
+        if srcs and all(x is not None for x in srcs) and all(x == srcs[0] for x in srcs):
+            return srcs[0]
+    return None
+
+
+def bytes_source(v, string_results=None):
+    """the list of byte values an abstract value is the bytes of, when the conversions applied are the identity on bytes:
+    bytes(X), bytes(bytearray(X)), ''.join(map(chr, X)).encode('latin-1'); None otherwise"""
+    if not isinstance(v, tuple):
+        return None
+    if v[0] == "fn" and v[1] in ("bytes", "bytearray") and len(v[2]) == 1:
+        inner = v[2][0]
+        if isinstance(inner, tuple) and inner[0] == "fn" and inner[1] in ("bytes", "bytearray"):
+            return bytes_source(inner, string_results)
+        return inner
+    if v[0] in ("ext", "fn") and v[1] in (".encode()", "encode") and len(v[2]) == 2:
+        codec, s_ = v[2][0], v[2][1]
+        if codec[0] == "c" and isinstance(codec[1], str) and codec[1].lower() in LATIN1:
+            return chars_source(s_, string_results)
+    return None
+
+
 def test_values(ctx, cls, test, var, domain=range(256)):
     """set of values of `var` for which `test` is definitely true; None if undecidable for some value"""
     out = set()
@@ -532,10 +589,22 @@ def rule_tags(ctx):
                     continue
                 b = disp.run_value(k)
                 if fname == "nextTreeInternal" and b.accepts and all(c.names[:1] == ["readString"] for c in b.cells if c.outcome == "ret"):
-                    # handed on to readString: decided in the readString context
+                    # handed on to readString: decided in the readString context - for binary content provided the
+                    # conversions on the way (characters of the bytes, encoded again) are the identity on bytes
                     if kind == "bytes":
-                        ctx.violate("C01.tags", wh, "control byte %s in %s" % (k, fname),
-                                    "encoder emits control byte %s (%s) as node content but %s reads it as a string" % (k, kind, fname))
+                        why = None
+                        try:
+                            sdisp = Dispatch(ctx.repo, dec, rs, svar)
+                            for c in b.cells:
+                                if c.outcome == "ret" and isinstance(c.value, tuple) and c.value[0] == "node":
+                                    src = bytes_source(c.value[1].data, lambda kk: [cc.value for cc in sdisp.run_value(kk).cells if cc.outcome == "ret"])
+                                    if src is None:
+                                        why = "as a string that is not converted back to the same bytes"
+                        except LookupError:
+                            why = "as a string"
+                        ctx.check("C01.tags", why is None, wh, "control byte %s in %s" % (k, fname),
+                                  "encoder emits control byte %s (%s) as node content but %s reads it %s" % (k, kind, fname, why),
+                                  "read through readString and encoded back byte for byte (chr / latin-1)")
                     continue
                 if not b.accepts:
                     ctx.violate("C01.tags", wh, "control byte %s in %s" % (k, fname),
@@ -734,38 +803,7 @@ def rule_pack(ctx):
             # the odd-length filler nibble 15 must not be a packable symbol and must be skipped by the reader
             ctx.check("C01.pack", 15 not in pack.values(), w, "filler nibble 15 (kind 255)",
                       "nibble value 15 encodes a symbol, so the odd-length filler is indistinguishable from data", "filler 15 is not a symbol")
-    # header bit layout: (size % 2) << 7 | len(arr)   <->   & 0x80 , & 0x7F
-    tp = ctx.repo.method(ENC, "WriteEncoder", "tryPackAndWriteHeader")
-    hdr = None
-    for n in ast.walk(tp):
-        if isinstance(n, ast.Call) and is_self_attr(n.func, "writeInt8") and n.args:
-            hdr = n
-    rp = ctx.repo.method(DEC, "ReadDecoder", "readPacked8")
-    if hdr is None:
-        ctx.undecided("C01.pack", where(ENC, "WriteEncoder.tryPackAndWriteHeader", tp.lineno), tp, "packed header write not found")
-        return
-    # evaluate header bits with size -> var('size'), len(arr) -> var('len',7)
-    class Sub(ast.NodeTransformer):
-        def visit_Call(self, node):
-            if isinstance(node.func, ast.Name) and node.func.id == "len":
-                return ast.Name(id="__len", ctx=ast.Load())
-            return self.generic_visit(node)
-    import copy
-    e = Sub().visit(copy.deepcopy(hdr.args[0]))
-    hv = bits.ev(e, {"size": bits.var("size", 16), "__len": bits.var("len", 7)}, Evaluator(ctx.repo, enc.module, enc))
-    okw = hv[7] == ("v", "size", 0) and all(hv[i] == ("v", "len", i) for i in range(7)) and all(x == 0 for x in hv[8:])
-    ctx.check("C01.pack", okw, where(ENC, "WriteEncoder.tryPackAndWriteHeader", hdr.lineno), hdr,
-              "packed header must carry the odd-length flag in bit 7 and the byte count in bits 0..6; found " + bits.describe(hv, 10),
-              "flag = size%2 in bit 7, byte count in bits 0..6")
-    masks = set()
-    dev = Evaluator(ctx.repo, dec.module, dec)
-    for n in ast.walk(rp):
-        if isinstance(n, ast.BinOp) and isinstance(n.op, ast.BitAnd):
-            a = alts(dev.ev(n.right))
-            if a and isinstance(a[0], int):
-                masks.add(a[0])
-    ctx.check("C01.pack", {0x80, 0x7F} <= masks, where(DEC, "ReadDecoder.readPacked8", rp.lineno), "header masks %s" % sorted(masks),
-              "reader must split the header with masks 0x80 (flag) and 0x7F (length); found %s" % [hex(m) for m in sorted(masks)], "reader splits flag 0x80 / length 0x7F")
+    # (the header's bit layout is decided with the writer / reader executions of C01.unpack)
     return tables
 
 
@@ -1055,64 +1093,150 @@ def norm(s):
     return norm_stmt(s)
 
 
+_TERM_OPS = {"BitOr": lambda a, b: a | b, "BitAnd": lambda a, b: a & b, "LShift": lambda a, b: a << b, "RShift": lambda a, b: a >> b,
+             "Add": lambda a, b: a + b, "Sub": lambda a, b: a - b, "Mult": lambda a, b: a * b, "Mod": lambda a, b: a % b,
+             "FloorDiv": lambda a, b: a // b, "BitXor": lambda a, b: a ^ b}
+
+
+def term_leaves(t, out=None):
+    out = set() if out is None else out
+    if t[0] == "ext":
+        out.add(t[1])
+    elif t[0] == "fn":
+        for x in t[2]:
+            term_leaves(x, out)
+    return out
+
+
+def term_eval(t, env):
+    """value of an arithmetic term the interpreter built over opaque leaves; None when it is not such a term"""
+    if t[0] == "c" and isinstance(t[1], int):
+        return t[1]
+    if t[0] == "ext":
+        return env.get(t[1])
+    if t[0] == "fn" and t[1] in _TERM_OPS and len(t[2]) == 2:
+        a, b = term_eval(t[2][0], env), term_eval(t[2][1], env)
+        if a is None or b is None:
+            return None
+        try:
+            return _TERM_OPS[t[1]](a, b)
+        except Exception:
+            return None
+    return None
+
+
+def run_packer(repo, enc, tp, kind, n, refuse_at=None):
+    """abstract execution of tryPackAndWriteHeader(kind, [b0..b(n-1)], data) with packByte answering an opaque nibble
+    per position (or -1 at `refuse_at`) -> ('ret', value, data items) | ('raise', text) | ('unknown', why)"""
+    from ..absint import Interp, _Raise, Budget, NeedAtom, DomainGrew
+
+    def pack(it, fn, owner, self_val, args, kwargs):
+        b = args[1] if len(args) > 1 else ("ext", "b?", [])
+        b = it.force(b) if hasattr(it, "force") else b
+        if b[0] != "ext" or not b[1].startswith("b"):
+            return ("fn", "packByte()", list(args))
+        i = int(b[1][1:])
+        if refuse_at is not None and i == refuse_at:
+            return ("c", -1)
+        return ("ext", "nib%d" % i, [])
+    it = Interp(repo, {}, {}, hooks={"fn:packByte": pack})
+    try:
+        o = it.construct(enc, [("ext", "tokdict", [])], {}, {"@module": enc.module, "@owner": None}, 0, None)
+        data = ("list", [])
+        hd = ("list", [("ext", "b%d" % i, []) for i in range(n)])
+        ps = params_of(tp)
+        args = [("c", kind), hd, data][:len(ps)]
+        v = it.call_function(tp, enc, o, args, {}, depth=0)
+    except _Raise as r:
+        return ("raise", r.text)
+    except (NeedAtom, Budget, DomainGrew) as x:
+        return ("unknown", "undecided test %s" % (x,))
+    return ("ret", v, list(data[1]))
+
+
+def packer_obligation(res, kind, n):
+    """None when the writer's output for n symbols is the format's; else what differs"""
+    if res[0] != "ret":
+        return "%s: %s" % (res[0], res[1])
+    v, data = res[1], res[2]
+    nb = (n + 1) // 2
+    if n == 0 or n >= 128:
+        if v != ("c", None):
+            return "a string of %d symbols must not be packed (the header's byte count has 7 bits); the writer returns %s" % (n, str(v)[:40])
+        return "the writer declines but has already written %d byte(s) to the frame" % len(data) if data else None
+    if v == ("c", None):
+        return "a packable string of %d symbols is not packed" % n
+    if v[0] != "list" or (len(v) > 2 and v[2]):
+        return "the packed bytes are not a closed list (%s)" % str(v)[:40]
+    want_hdr = ((n % 2) << 7) | nb
+    hdr = [term_eval(x, {}) for x in data]
+    if hdr != [kind, want_hdr]:
+        return "for %d symbols the writer emits the header %s; the format wants [kind %d, flag<<7|count = 0x%02x]" % (n, [h if h is not None else "?" for h in hdr], kind, want_hdr)
+    if len(v[1]) != nb:
+        return "%d symbols are packed into %d byte(s), the header announces %d" % (n, len(v[1]), nb)
+    for j, t in enumerate(v[1]):
+        hi, lo = "nib%d" % (2 * j), "nib%d" % (2 * j + 1)
+        last_odd = (n % 2 == 1 and j == nb - 1)
+        allowed = {hi} if last_odd else {hi, lo}
+        extra = term_leaves(t) - allowed
+        if extra:
+            return "packed byte %d depends on %s (symbol i belongs in byte i//2)" % (j, sorted(extra))
+        for a in range(16):
+            for b in ([15] if last_odd else range(16)):
+                got = term_eval(t, {hi: a, lo: b})
+                if got is None:
+                    return "packed byte %d is not an arithmetic term over the two nibbles (%s)" % (j, str(t)[:60])
+                if got != ((a << 4) | b):
+                    what = "the filler nibble 15 in the low half" if last_odd else "nibble %d in the low half" % (2 * j + 1)
+                    return "packed byte %d of %d symbols is 0x%02x for nibbles (%d, %d); the reader expects symbol %d in the high half and %s (0x%02x)" % (j, n, got & 0xFFFF, a, b, 2 * j, what, (a << 4) | b)
+    return None
+
+
 def rule_unpack(ctx, tables):
-    """decoder side of packed strings: for every kind and every header byte the reader emits exactly the symbols the
-    writer packed (unpack table applied to every data nibble, the odd-length filler dropped, nothing else dropped)."""
+    """packed strings, writer and reader.  Writer: tryPackAndWriteHeader is abstractly executed for 0, 1..7, 126, 127, 128
+    symbols with packByte answering one opaque nibble per position: the header must be [kind, (n%2)<<7 | ceil(n/2)] and
+    byte j must equal nibble(2j)<<4 | nibble(2j+1) - 15 as the filler of an odd length - for all 256 nibble pairs; a symbol
+    packByte refuses (first / middle / last position) makes the writer decline without having written anything.
+    Reader: for every kind and every header byte the reader emits exactly the symbols the writer packed."""
     enc = ctx.repo.cls(ENC, "WriteEncoder")
     dec = ctx.repo.cls(DEC, "ReadDecoder")
     tp = ctx.repo.method(ENC, "WriteEncoder", "tryPackAndWriteHeader")
     rp = ctx.repo.method(DEC, "ReadDecoder", "readPacked8")
     wenc = where(ENC, "WriteEncoder.tryPackAndWriteHeader", tp.lineno)
-    # -- writer layout: nibble i goes to byte i//2, high nibble first; filler 15 iff the length is odd
-    ps = [a.arg for a in tp.args.args][1:]
-    sizevar = None
-    for s in tp.body:
-        if isinstance(s, ast.Assign) and isinstance(s.value, ast.Call) and unparse(s.value.func) == "len" and len(ps) >= 2 and unparse(s.value.args[0]) == ps[1]:
-            sizevar = s.targets[0].id
-    shift = index = filler = None
-    for n in ast.walk(tp):
-        if isinstance(n, ast.AugAssign) and isinstance(n.op, ast.BitOr) and isinstance(n.target, ast.Subscript):
-            if isinstance(n.value, ast.BinOp) and isinstance(n.value.op, ast.LShift):
-                shift, index = n.value.right, n.target.slice
-            else:
-                filler = n
-    ev = Evaluator(ctx.repo, enc.module, enc)
-    if shift is None or filler is None or sizevar is None:
-        ctx.undecided("C01.unpack", wenc, tp, "writer's nibble placement / filler statement not recognised")
-        return
-    loopvars = [n.target.id for n in ast.walk(tp) if isinstance(n, ast.For) and isinstance(n.target, ast.Name)]
-    lv = loopvars[0] if loopvars else "i"
-    def loop_env(i):
-        env = {lv: K(i)}
-        for n in ast.walk(tp):
-            if isinstance(n, ast.For):
-                for st in n.body:
-                    if isinstance(st, ast.Assign) and len(st.targets) == 1 and isinstance(st.targets[0], ast.Name):
-                        val = Evaluator(ctx.repo, enc.module, enc, env).ev(st.value)
-                        if alts(val) is not None:
-                            env[st.targets[0].id] = val
-        return env
-    sh = [alts(Evaluator(ctx.repo, enc.module, enc, loop_env(i)).ev(shift)) for i in range(6)]
-    ix = [alts(Evaluator(ctx.repo, enc.module, enc, loop_env(i)).ev(index)) for i in range(6)]
-    ok = sh == [[4], [0]] * 3 and ix == [[0], [0], [1], [1], [2], [2]]
-    ctx.check("C01.unpack", ok, wenc, "arr[%s] |= packByte << %s" % (unparse(index), unparse(shift)),
-              "writer must place symbol i in byte i//2, high nibble first (the reader hexlifies high nibble first); found shifts %s, indices %s" % (sh, ix),
-              "symbol i -> byte i//2, high nibble first")
-    fill_val = alts(ev.ev(filler.value))
-    fill_idx = alts(ev.ev(filler.target.slice))
-    # the filler statement must run exactly when the length is odd
-    guard = None
-    for n in ast.walk(tp):
-        if isinstance(n, ast.If) and any(x is filler for b in n.body for x in ast.walk(b)):
-            guard = n.test
-    odd = None
-    if guard is not None:
-        tv = [alts(Evaluator(ctx.repo, enc.module, enc, {sizevar: K(z)}).ev(guard)) for z in range(1, 128)]
-        if all(t is not None and len(t) == 1 for t in tv):
-            odd = all(bool(t[0]) == (z % 2 == 1) for t, z in zip(tv, range(1, 128)))
-    ctx.check("C01.unpack", (fill_val == [15] and fill_idx == [-1] and odd) if odd is not None else None, wenc, filler,
-              "writer must or the filler nibble 15 into the last byte exactly when the length is odd; found value %s index %s guard %s" % (fill_val, fill_idx, unparse(guard) if guard is not None else None),
-              "filler 15 in the low nibble of the last byte iff the length is odd")
+    sizes = [0, 1, 2, 3, 4, 5, 6, 7, 126, 127, 128, 129, 255, 256]
+    for kind in sorted(tables):
+        bad = None
+        und = None
+        for n in sizes:
+            r = run_packer(ctx.repo, enc, tp, kind, n)
+            if r[0] == "unknown":
+                und = "%d symbols: %s" % (n, r[1])
+                break
+            bad = packer_obligation(r, kind, n)
+            if bad:
+                break
+        if und:
+            ctx.undecided("C01.unpack", wenc, "writer layout, kind %d" % kind, und)
+        else:
+            ctx.check("C01.unpack", not bad, wenc, "writer layout, kind %d" % kind, bad or "",
+                      "header [kind, flag<<7|count] and byte j = nibble 2j << 4 | nibble 2j+1 (filler 15) for %d sizes x 256 nibble pairs" % len(sizes))
+        # a symbol outside the alphabet anywhere in the string: not packed, nothing written
+        bad = und = None
+        for n, at in ((1, 0), (2, 1), (5, 0), (5, 2), (5, 4), (6, 5)):
+            r = run_packer(ctx.repo, enc, tp, kind, n, refuse_at=at)
+            if r[0] == "unknown":
+                und = "%d symbols, position %d refused: %s" % (n, at, r[1])
+                break
+            if r[0] == "raise":
+                bad = "a string with an unpackable symbol at position %d of %d raises %s" % (at, n, r[1][:50])
+                break
+            if r[1] != ("c", None) or r[2]:
+                bad = "a string whose symbol %d of %d is outside the alphabet is %s" % (at, n, "packed anyway" if r[1] != ("c", None) else "declined after %d byte(s) were written to the frame" % len(r[2]))
+                break
+        if und:
+            ctx.undecided("C01.unpack", wenc, "unpackable symbol, kind %d" % kind, und)
+        else:
+            ctx.check("C01.unpack", not bad, wenc, "unpackable symbol, kind %d" % kind, bad or "", "declined with nothing written (6 positions)")
     # -- reader, abstractly executed per (kind, header byte)
     counts = list(range(1, 128)) if ctx.tier == "thorough" else [1, 2, 3, 64, 127]
     ctx.units["C01.unpack_headers"] = {"kinds": sorted(tables), "counts": len(counts), "flags": 2}
@@ -1484,7 +1608,7 @@ def run(ctx):
     ctx.rule("C01.class", "size-class branches imply the value fits the chosen length form", floor=5)
     ctx.rule("C01.tags", "emitted control bytes are dispatched with the matching length reader", floor=12)
     ctx.rule("C01.dbl", "double-byte token arithmetic is inverse", floor=2)
-    ctx.rule("C01.pack", "packing tables and the packed header are inverse", floor=5)
+    ctx.rule("C01.pack", "packing tables are inverse (every byte value, both kinds)", floor=3)
     ctx.rule("C01.unpack", "packed body: writer nibble layout / filler, reader abstractly executed per (kind, header byte)", floor=6)
     ctx.rule("C01.str", "one byte per character in both directions (latin-1)", floor=2)
     ctx.rule("C01.node", "ProtocolTreeNode keeps its constructor arguments", floor=1)
